@@ -163,8 +163,10 @@ def run_e2(res, cfg, src_names, instances, builder, wrappers=(), defs=(), replay
                 if f.get("confirmed"):
                     verdict = "violated"
                     rp = res.save_replay(("%s_%s_%s" % (group, o["name"], f["label"])).replace("/", "_").replace(" ", "_")[:150] + ".c",
-                                         "/* %s %s\n   %s\n   model: %s\n   confirmation: %s */\n%s" % (
-                                             f["kind"], f["label"], f["detail"], json.dumps(f["model"])[:1500], f["how"], f.get("c_text", "")))
+                                         "/* %s %s\n   %s\n   model: %s\n   confirmation: %s\n   replay-config: %s\n   replay-sources: %s */\n%s" % (
+                                             f["kind"], f["label"], f["detail"], json.dumps(f["model"])[:1500], f["how"],
+                                             " ".join(l.strip() for l in open(cfg) if l.startswith("#define A_HAVE_") or l.startswith("#define A_SIZE_REAL")).replace("#define ", "-D").replace(" 1", "=1") or "-",
+                                             " ".join(os.path.relpath(x, VERIF) if x.startswith(VERIF) else "src/" + os.path.basename(x) for x in G["replay_srcs"]), f.get("c_text", "")))
                     res.violation(sig, "%s %s in %s: %s [%s]" % (f["kind"], f["label"], o["name"], f["detail"][:160], f["how"][:160]),
                                   replay=rp, model=f["model"])
                 elif f["kind"] in ("MEM", "UB") and not f.get("mismatch"):
